@@ -29,8 +29,15 @@ def plan(tier, seed):
     return [{"shard": i, "n": n // nsh} for i in range(nsh)]
 
 
+BOUNDARY_LENGTHS = sorted({255 * k + d for k in (1, 2, 3, 4) for d in (-1, 0, 1)} | {256 * k + d for k in (1, 2, 3, 4) for d in (-1, 0, 1)})
+
+
 def cases(spec, ctx):
     for i in range(spec["n"]):
+        if i % 40 == 7:
+            # a slice component whose coded length sits on a slice_size_scaler boundary (255k / 256k bytes, +-1)
+            ctx.count("slice_length_boundary_cases")
+            yield {"recipe": configs.codelen_recipe(ctx.rng, ctx.rng.choice(BOUNDARY_LENGTHS))}
         k = ctx.rng.random()
         if k < 0.6:
             space = {"lossless": "yes"}
